@@ -45,6 +45,7 @@ def build_world(root, cube, K, ulo, uhi, nd, c, fmt, memmap, r, distance_unit='k
     # the unit in which the aperture radii are handed to the fitter (arcsec, arcmin or degrees).  Another unit costs the request
     # theta*d one ulp, so such worlds get one extra, smaller tabulated radius below every request (it changes no interpolated value)
     ap_unit = 'arcsec' if (rc is not None or remove_resolved) else ['arcsec', 'arcmin', 'deg'][(hv // 5) % 3]
+    tab_unit = 'au' if (rc is not None or remove_resolved) else ['au', 'pc', 'cm'][(hv // 15) % 3]      # unit of the tabulated radii
     rc = rc or recipes(c, nd, r)
     wavs = fw.band_wavelengths(nbands)
     os.makedirs(os.path.join(d, 'convolved'))
@@ -68,14 +69,14 @@ def build_world(root, cube, K, ulo, uhi, nd, c, fmt, memmap, r, distance_unit='k
             knots = [0.5 * knots[0]] + knots
             for m in range(nm):
                 vals[m] = [0.3 * vals[m][0]] + vals[m]
-        if ap_unit != 'arcsec':
+        if ap_unit != 'arcsec' or tab_unit != 'au':
             knots = [0.5 * knots[0]] + knots
             for m in range(nm):
                 vals[m] = [0.3 * vals[m][0]] + vals[m]
         cf = ConvolvedFluxes()
         cf.central_wavelength = wavs[j] * u.micron
         cf.model_names = np.array(names, dtype='U30')
-        cf.apertures = np.array(knots) * u.au
+        cf.apertures = (np.array(knots) * u.au).to(getattr(u, tab_unit))
         cf.flux = np.array(vals) * u.mJy
         cf.error = np.zeros((nm, len(knots))) * u.mJy
         cf.write(os.path.join(d, 'convolved', 'f%d.fits' % j))
